@@ -33,8 +33,13 @@ def _post(snap, res, graph, left, right, *, conditions=None, cutoff=None):
         kernel.count("C20:cutoff-call-skipped")  # a real path-length limit changes the question
         return
     if conditions is not None and not isinstance(conditions, (set, frozenset, list, tuple)):
-        kernel.count("C20:one-shot-conditions-not-judged")
-        return
+        # a one-shot iterable was consumed by the call: the driver's record of the query stands in for it
+        c = kernel.LOG.case
+        if isinstance(c, dict) and isinstance(c.get("C"), list) and c.get("a") == str(left) and c.get("b") == str(right):
+            conditions = {gg.node(n) for n in c["C"]}
+        else:
+            kernel.count("C20:one-shot-conditions-not-judged")
+            return
     C = set(conditions or ())
     if left == right or left in C or right in C:
         kernel.count("C20:degenerate-query")
@@ -79,7 +84,7 @@ def query(ctx, g, gd, a, b, C, gkey, both=True):
     Cv = {Variable(c) for c in C}
     # the conditions in every form the signature admits (and None for the empty set); a non-binding cutoff sometimes
     k = sum(map(ord, gkey + a + b + "".join(sorted(C))))
-    form = [set, frozenset, list, tuple][k % 4]
+    form = [set, frozenset, list, tuple, iter, lambda xs: (x for x in xs), lambda xs: map(lambda x: x, xs)][k % 7]
     kw = {"conditions": (None if not Cv and k % 3 == 0 else form(sorted(Cv, key=str)))}
     if k % 5 == 0:
         kw["cutoff"] = len(gd["nodes"]) + 1
@@ -119,6 +124,27 @@ def random_cyclic(rng, n):
     return {"nodes": nm, "di": di, "bi": bi, "hostile": "cyclic"}
 
 
+def long_graph(rng):
+    """A path X00 - X01 - ... of 12..18 nodes whose consecutive nodes are joined by ->, <- or <->, plus a few pendant nodes."""
+    n = rng.randint(12, 18)
+    nm = [f"X{i:02d}" for i in range(n)]
+    di, bi = [], []
+    style = rng.choice(["directed", "bidirected", "mixed", "mixed"])
+    for u, v in zip(nm, nm[1:]):
+        r = rng.random()
+        if style == "directed" or (style == "mixed" and r < 0.5):
+            di.append([u, v])
+        elif style == "bidirected" or r < 0.8:
+            bi.append([u, v])
+        else:
+            di.append([v, u])
+    extra = [f"Z{i}" for i in range(rng.randint(0, 3))]
+    for z in extra:
+        a = rng.choice(nm)
+        (di if rng.random() < 0.7 else bi).append([a, z])
+    return {"nodes": nm + extra, "di": di, "bi": bi, "hostile": "long-" + style}
+
+
 def run_shard(ctx):
     install()
     rng = ctx.rng
@@ -152,6 +178,17 @@ def run_shard(ctx):
             rest = [x for x in gd["nodes"] if x not in (a, b)]
             C = rng.sample(rest, rng.randint(0, len(rest)))
             query(ctx, g, gd, a, b, sorted(C), gkey)
+    # long graphs: chains and trees of 12..18 nodes whose only connection between the two ends has 11 or more edges
+    for _ in range(ctx.share({"quick": 80, "thorough": 2000}[ctx.tier])):
+        gd = long_graph(rng)
+        g = gg.to_nx(gd)
+        gkey = gg.key(gd)
+        nodes = gd["nodes"]
+        ends = [(nodes[0], nodes[-1])] + [tuple(rng.sample(nodes, 2)) for _q in range(3)]
+        for a, b in ends:
+            rest = [x for x in nodes if x not in (a, b)]
+            for C in ([], rng.sample(rest, 1), rng.sample(rest, min(len(rest), rng.randint(1, 3)))):
+                query(ctx, g, gd, a, b, sorted(C), gkey, both=False)
     # edit histories: query one graph object, edit it in place, query the same object again
     for _ in range(ctx.share({"quick": 300, "thorough": 6000}[ctx.tier])):
         gd = gg.random_admg(rng, rng.randint(3, 5))
